@@ -7,7 +7,7 @@ From Coq Require Import List ZArith Bool.
 Import ListNotations.
 From Coq Require Import Sorted.
 From GMS Require Import Range.Cut Range.CutProofs Range.MRange Range.MRangeProofs Range.MRangeMore Range.RorNoError
-  Range.RorSorted Range.SimplifyProofs Range.C03IndexBuilderProofs.
+  Range.RorSorted Range.SimplifyProofs Range.RorTerm Range.C03IndexBuilderProofs.
 Open Scope nat_scope.
 
 (* the cut order of range_cut.go is a total order ... *)
@@ -106,26 +106,35 @@ Print Assumptions C46_gap_means_disconnected_and_disjoint.
 
 (* RemoveOverlappingRanges, for every input list, every step bound and every admissible sequence of
    FindConnections observations: a returned collection denotes exactly the union of the inputs and is pairwise
-   disjoint.  PARTIAL only in that termination of the worklist loop is not proved (it does not terminate for
-   degenerate columns, see the finding); sortedness and absence of the error are the next two theorems. *)
+   disjoint.  (Named _partial for continuity: sortedness, absence of the error and termination are the three theorems
+   that follow it, each under the guard that no input column is empty at the cut level.) *)
 Theorem C46_remove_overlapping_ranges_exact_disjoint_partial : forall fuel finds rs out c t, t <> [] ->
   remove_overlapping_ranges fuel finds rs = (ROk out, c) ->
   ucontains out t = ucontains rs t /\ pairwise_disjoint out.
 Proof. exact remove_overlapping_ranges_exact. Qed.
 Print Assumptions C46_remove_overlapping_ranges_exact_disjoint_partial.
 
-(* ... and, when every input range has n columns none of which is empty at the cut level (lower < upper), it is strictly
-   sorted by MySQLRange.Compare ... *)
+(* ... and, when every input range has the same number n of columns (empty columns allowed), it is strictly sorted by
+   MySQLRange.Compare ... *)
 Theorem C46_remove_overlapping_ranges_sorted : forall n fuel finds rs out c,
-  Forall (wf n) rs -> remove_overlapping_ranges fuel finds rs = (ROk out, c) -> StronglySorted rlt out.
-Proof. exact remove_overlapping_ranges_sorted. Qed.
+  Forall (fun r => length r = n) rs -> remove_overlapping_ranges fuel finds rs = (ROk out, c) -> StronglySorted rlt out.
+Proof. exact remove_overlapping_ranges_sorted_len. Qed.
 Print Assumptions C46_remove_overlapping_ranges_sorted.
-(* ... and the "overlapping ranges" error cannot occur when every FindConnections observation was complete
+(* ... and, when moreover no input column is empty at the cut level (lower < upper), the "overlapping ranges" error
+   cannot occur when every FindConnections observation was complete
    (the flag returned by the model is true); the finding below is exactly an incomplete observation of the real tree *)
 Theorem C46_remove_overlapping_ranges_no_error_when_finds_complete : forall n fuel finds rs res,
   Forall (wf n) rs -> remove_overlapping_ranges fuel finds rs = (res, true) -> res <> RErrOverlap.
 Proof. exact remove_overlapping_ranges_no_error. Qed.
 Print Assumptions C46_remove_overlapping_ranges_no_error_when_finds_complete.
+
+(* ... and the worklist loop terminates: with more steps than the explicit bound ror_bound (computed from the number of
+   grid cells the input covers, counted on the grid of its own cuts) the step bound is never the reason to stop,
+   whatever the FindConnections observations are.  The guard is essential: see the non-termination finding. *)
+Theorem C46_remove_overlapping_ranges_terminates : forall n rs finds fuel,
+  Forall (wf n) rs -> ror_bound rs < fuel -> fst (remove_overlapping_ranges fuel finds rs) <> RFuel.
+Proof. exact remove_overlapping_ranges_terminates. Qed.
+Print Assumptions C46_remove_overlapping_ranges_terminates.
 
 (* IntersectRanges: when the arguments of non-zero length all have n columns and there is at least one, the
    result is a range of n columns denoting exactly the intersection of those arguments (an empty intersection is
